@@ -205,7 +205,7 @@ Proof.
     apply take_segments_spec in Ets. destruct Ets as [Hs [Hc Hne]]. specialize (Hne Hn). destruct Hne as [Hn1 Hnc].
     destruct segs as [|x segs].
     + injection H as <- <- <-. unfold dir_inv. cbn [d_phase d_out]. split; assumption.
-    + destruct pend.
+    + destruct (pend && data_pending s now).
       * destruct (conn_read c1 c05_relay_buf s now) as [[[r c2] s2] t2] eqn:E.
         pose proof (conn_read_conserve _ _ _ _ _ _ _ _ E) as Hcons.
         pose proof (conn_read_no_eof_err _ _ _ _ _ _ _ _ E Hn1) as Hn2.
@@ -363,29 +363,30 @@ Proof.
 Qed.
 
 Lemma dns_stage_f_conserve : forall fuel orc c s now oc s' t,
-  dns_stage_f fuel orc c s now = (oc, s', t) -> orc <> DnsResponse -> no_eof_err c ->
+  dns_stage_f fuel orc c s now = (oc, s', t) -> no_eof_err c ->
   match oc with
   | Some c' => pending c' ++ unread s' = pending c ++ unread s /\ no_eof_err c'
   | None => True
   end.
 Proof.
-  intros fuel orc c s now oc s' t H Ho Hn. unfold dns_stage_f in H.
+  intros fuel orc c s now oc s' t H Hn. unfold dns_stage_f in H.
   destruct (peek fuel 2 [] c (set_dl s (Some (now + c05_dns_first_timeout_ms))) now) as [[[[ok buf] c1] s2] t2] eqn:E1.
   pose proof (peek_conserve _ _ _ _ _ _ _ _ _ _ _ E1) as H1. cbn [app] in H1. rewrite unread_set_dl in H1.
   pose proof (peek_no_eof_err _ _ _ _ _ _ _ _ _ _ _ E1 Hn) as Hn1.
-  destruct (negb ok); [inversion H; subst; cbn [pending]; split; [rewrite <- app_assoc; exact H1|exact Hn1]|].
-  destruct (be16 buf <? 12); [inversion H; subst; cbn [pending]; split; [rewrite <- app_assoc; exact H1|exact Hn1]|].
+  destruct (negb ok); [inversion H; subst; cbn [pending]; rewrite unread_set_dl; split; [rewrite <- app_assoc; exact H1|exact Hn1]|].
+  destruct (be16 buf <? 12); [inversion H; subst; cbn [pending]; rewrite unread_set_dl; split; [rewrite <- app_assoc; exact H1|exact Hn1]|].
   destruct (peek fuel (2 + be16 buf) buf c1 s2 t2) as [[[[ok2 buf2] c3] s3] t3] eqn:E2.
   pose proof (peek_conserve _ _ _ _ _ _ _ _ _ _ _ E2) as H2.
   pose proof (peek_no_eof_err _ _ _ _ _ _ _ _ _ _ _ E2 Hn1) as Hn3.
-  destruct (negb ok2); [inversion H; subst; cbn [pending]; split; [rewrite <- app_assoc; congruence|exact Hn3]|].
-  destruct orc; try congruence.
-  - inversion H; subst; cbn [pending]; split; [rewrite <- app_assoc; congruence|exact Hn3].
+  destruct (negb ok2); [inversion H; subst; cbn [pending]; rewrite unread_set_dl; split; [rewrite <- app_assoc; congruence|exact Hn3]|].
+  destruct orc.
+  - inversion H; subst; cbn [pending]; rewrite unread_set_dl; split; [rewrite <- app_assoc; congruence|exact Hn3].
   - inversion H; subst. exact I.
+  - inversion H; subst; cbn [pending]; rewrite unread_set_dl; split; [rewrite <- app_assoc; congruence|exact Hn3].
 Qed.
 
 Lemma dns_stage_conserve : forall orc c s now oc s' t,
-  dns_stage orc c s now = (oc, s', t) -> orc <> DnsResponse -> no_eof_err c ->
+  dns_stage orc c s now = (oc, s', t) -> no_eof_err c ->
   match oc with
   | Some c' => pending c' ++ unread s' = pending c ++ unread s /\ no_eof_err c'
   | None => True
@@ -411,7 +412,7 @@ Lemma sniff_rounds_conserve : forall answers dl buf c s now buf' derr c' s' t sp
 Proof.
   induction answers as [|[more room] rest IH]; intros dl buf c s now buf' derr c' s' t spin H Hn; cbn [sniff_rounds] in H.
   - inversion H; subst. repeat split; auto. discriminate.
-  - destruct (conn_read c room (set_dl s (Some dl)) now) as [[[r c2] s2] t2] eqn:E.
+  - destruct (conn_read c (N.max room sniff_min_read) (set_dl s (Some dl)) now) as [[[r c2] s2] t2] eqn:E.
     pose proof (conn_read_no_eof_err _ _ _ _ _ _ _ _ E Hn) as Hn2.
     apply conn_read_conserve in E. rewrite unread_set_dl in E.
     assert (Hc : (buf ++ r_data r) ++ pending c2 ++ unread (set_dl s2 None) = buf ++ pending c ++ unread s).
@@ -427,6 +428,12 @@ Proof.
       * inversion H; subst; repeat split; auto; discriminate.
 Qed.
 
+Lemma sniff_stage_conserve : forall answers dl c s now buf' derr c' s' t spin,
+  sniff_stage answers dl c s now = (buf', derr, c', s', t, spin) -> no_eof_err c ->
+  buf' ++ pending c' ++ unread s' = pending c ++ unread s /\ no_eof_err c' /\ derr <> Some EEof.
+Proof. intros answers dl c s now buf' derr c' s' t spin H Hn. unfold sniff_stage in H.
+  apply sniff_rounds_conserve in H; [|assumption]. exact H. Qed.
+
 Lemma norm_unread : forall l, concat (map c_data (norm_chunks l)) = concat (map c_data l).
 Proof.
   induction l as [|c r IH]; [reflexivity|]. cbn [norm_chunks].
@@ -437,34 +444,33 @@ Lemma unread_mk_sock : forall sd, unread (mk_sock sd) = stream sd.
 Proof. intros. unfold unread, mk_sock, stream. cbn [k_in]. apply norm_unread. Qed.
 
 Lemma prologue_conserve : forall p s0 now0,
-  p_dns p <> DnsResponse ->
   match ps_conn (prologue p s0 now0) with
   | Some st => pending st ++ unread (ps_sock (prologue p s0 now0)) = unread s0 /\ no_eof_err st
   | None => True
   end.
 Proof.
-  intros p s0 now0 Ho. unfold prologue.
+  intros p s0 now0. unfold prologue.
   destruct (p_port53 p).
   - destruct (dns_stage (p_dns p) CSock s0 now0) as [[oc s1] t1] eqn:Ed.
-    pose proof (dns_stage_conserve _ _ _ _ _ _ _ Ed Ho I) as Hd.
+    pose proof (dns_stage_conserve _ _ _ _ _ _ _ Ed I) as Hd.
     destruct oc as [c1|]; [|exact I]. destruct Hd as [Hd Hn1]. cbn [pending app] in Hd.
     destruct (negb (p_try_sniff p)); [cbn; split; assumption|].
     destruct (prefetch_stage (p_sniff_ms p) c1 s1 t1) as [[[[c2 pre] ready] s2] t2] eqn:Ep.
     pose proof (prefetch_conserve _ _ _ _ _ _ _ _ _ Ep Hn1) as [Hp Hn2].
     destruct (negb ready); [cbn; split; [congruence|assumption]|].
     destruct (negb (is_likely_http_or_tls pre)); [cbn; split; [congruence|assumption]|].
-    destruct (sniff_rounds (p_answers p) (t2 + p_sniff_ms p) [] c2 s2 t2) as [[[[[buf derr] c3] s3] t3] spin] eqn:Es.
-    pose proof (sniff_rounds_conserve _ _ _ _ _ _ _ _ _ _ _ _ Es Hn2) as [Hs [Hn3 Hde]].
-    cbn [app] in Hs. cbn. split; [|split; assumption]. rewrite <- app_assoc. congruence.
+    destruct (sniff_stage (p_answers p) (t2 + p_sniff_ms p) c2 s2 t2) as [[[[[buf derr] c3] s3] t3] spin] eqn:Es.
+    pose proof (sniff_stage_conserve _ _ _ _ _ _ _ _ _ _ _ Es Hn2) as [Hs [Hn3 Hde]].
+    cbn. split; [|split; assumption]. rewrite <- app_assoc. congruence.
   - cbn [pending app].
     destruct (negb (p_try_sniff p)); [cbn; split; auto|].
     destruct (prefetch_stage (p_sniff_ms p) CSock s0 now0) as [[[[c2 pre] ready] s2] t2] eqn:Ep.
     pose proof (prefetch_conserve _ _ _ _ _ _ _ _ _ Ep I) as [Hp Hn2]. cbn [pending app] in Hp.
     destruct (negb ready); [cbn; split; [congruence|assumption]|].
     destruct (negb (is_likely_http_or_tls pre)); [cbn; split; [congruence|assumption]|].
-    destruct (sniff_rounds (p_answers p) (t2 + p_sniff_ms p) [] c2 s2 t2) as [[[[[buf derr] c3] s3] t3] spin] eqn:Es.
-    pose proof (sniff_rounds_conserve _ _ _ _ _ _ _ _ _ _ _ _ Es Hn2) as [Hs [Hn3 Hde]].
-    cbn [app] in Hs. cbn. split; [|split; assumption]. rewrite <- app_assoc. congruence.
+    destruct (sniff_stage (p_answers p) (t2 + p_sniff_ms p) c2 s2 t2) as [[[[[buf derr] c3] s3] t3] spin] eqn:Es.
+    pose proof (sniff_stage_conserve _ _ _ _ _ _ _ _ _ _ _ Es Hn2) as [Hs [Hn3 Hde]].
+    cbn. split; [|split; assumption]. rewrite <- app_assoc. congruence.
 Qed.
 
 (* ------------------------------------------------------------------ whole connection *)
@@ -474,11 +480,11 @@ Definition bytes_intact_stmt (p : pcase) (grace : N) (pend prio : bool) (client 
   (o_up_shut o = true -> o_up o = stream client) /\
   (o_down_shut o = true -> o_down o = stream server).
 
-Lemma bytes_intact_partial_proof : forall p grace pend prio client server,
-  p_dns p <> DnsResponse -> bytes_intact_stmt p grace pend prio client server.
+Lemma bytes_intact_proof : forall p grace pend prio client server,
+  bytes_intact_stmt p grace pend prio client server.
 Proof.
-  intros p grace pend prio client server Ho. unfold bytes_intact_stmt, connection.
-  pose proof (prologue_conserve p (mk_sock client) 0 Ho) as Hp.
+  intros p grace pend prio client server. unfold bytes_intact_stmt, connection.
+  pose proof (prologue_conserve p (mk_sock client) 0) as Hp.
   destruct (ps_conn (prologue p (mk_sock client) 0)) as [st|] eqn:Ec.
   - destruct Hp as [Hp Hn].
     destruct (run_relay grace pend prio st (ps_sock (prologue p (mk_sock client) 0)) (mk_sock server) (ps_now (prologue p (mk_sock client) 0))) as [y alive] eqn:Er.
@@ -529,7 +535,7 @@ Lemma sniff_rounds_dl : forall answers dl buf c s now buf' derr c' s' t spin,
 Proof.
   induction answers as [|[more room] rest IH]; intros dl buf c s now buf' derr c' s' t spin H Hd; cbn [sniff_rounds] in H.
   - inversion H; subst. exact Hd.
-  - destruct (conn_read c room (set_dl s (Some dl)) now) as [[[r c2] s2] t2] eqn:E.
+  - destruct (conn_read c (N.max room sniff_min_read) (set_dl s (Some dl)) now) as [[[r c2] s2] t2] eqn:E.
     destruct (r_err r) as [e|].
     + destruct e; [destruct (nonempty (buf ++ r_data r) && more)| | |]; inversion H; subst; reflexivity.
     + destruct more.
@@ -537,55 +543,121 @@ Proof.
       * inversion H; subst. reflexivity.
 Qed.
 
-Lemma no_stale_deadline_partial_proof : forall p s0 now0,
-  p_port53 p = false -> k_dl s0 = None -> k_dl (ps_sock (prologue p s0 now0)) = None.
+Lemma peek_dl : forall fuel n buf c s now ok buf' c' s' t,
+  peek fuel n buf c s now = (ok, buf', c', s', t) -> k_dl s' = k_dl s.
 Proof.
-  intros p s0 now0 Hp Hd. unfold prologue. rewrite Hp.
-  destruct (negb (p_try_sniff p)); [exact Hd|].
-  destruct (prefetch_stage (p_sniff_ms p) CSock s0 now0) as [[[[c2 pre] ready] s2] t2] eqn:Ep.
-  assert (Hd2 : k_dl s2 = None).
-  { unfold prefetch_stage in Ep.
-    destruct (conn_read CSock c05_prefetch_bytes (set_dl s0 (Some (now0 + p_sniff_ms p))) now0) as [[[r c3] s3] t3].
-    destruct (r_data r); inversion Ep; subst; reflexivity. }
-  destruct (negb ready); [exact Hd2|].
-  destruct (negb (is_likely_http_or_tls pre)); [exact Hd2|].
-  destruct (sniff_rounds (p_answers p) (t2 + p_sniff_ms p) [] c2 s2 t2) as [[[[[buf derr] c3] s3] t3] spin] eqn:Es.
-  cbn. eapply sniff_rounds_dl; eauto.
+  induction fuel as [|f IH]; intros n buf c s now ok buf' c' s' t H; cbn [peek] in H.
+  - destruct (n <=? len buf); [inversion H; subst; reflexivity|].
+    destruct (bufio_size <=? len buf); inversion H; subst; reflexivity.
+  - destruct (n <=? len buf); [inversion H; subst; reflexivity|].
+    destruct (bufio_size <=? len buf); [inversion H; subst; reflexivity|].
+    destruct (conn_read c (bufio_size - len buf) s now) as [[[r c2] s2] t2] eqn:E.
+    apply conn_read_dl in E.
+    destruct (r_err r).
+    + inversion H; subst. exact E.
+    + apply IH in H. congruence.
 Qed.
 
-(* ------------------------------------------------------------------ witnesses *)
+Lemma dns_stage_f_dl : forall fuel orc c s now c' s' t,
+  dns_stage_f fuel orc c s now = (Some c', s', t) -> k_dl s' = None.
+Proof.
+  intros fuel orc c s now c' s' t H. unfold dns_stage_f in H.
+  destruct (peek fuel 2 [] c (set_dl s (Some (now + c05_dns_first_timeout_ms))) now) as [[[[ok buf] c1] s2] t2].
+  destruct (negb ok); [inversion H; subst; reflexivity|].
+  destruct (be16 buf <? 12); [inversion H; subst; reflexivity|].
+  destruct (peek fuel (2 + be16 buf) buf c1 s2 t2) as [[[[ok2 buf2] c3] s3] t3].
+  destruct (negb ok2); [inversion H; subst; reflexivity|].
+  destruct orc; inversion H; subst; reflexivity.
+Qed.
+
+Lemma dns_stage_dl : forall orc c s now c' s' t,
+  dns_stage orc c s now = (Some c', s', t) -> k_dl s' = None.
+Proof. intros orc c s now c' s' t. unfold dns_stage. apply dns_stage_f_dl. Qed.
+
+Lemma prefetch_dl : forall wait c s now c' pre ready s' t,
+  prefetch_stage wait c s now = (c', pre, ready, s', t) -> k_dl s' = None.
+Proof.
+  intros wait c s now c' pre ready s' t H. unfold prefetch_stage in H.
+  destruct (conn_read c c05_prefetch_bytes (set_dl s (Some (now + wait))) now) as [[[r c3] s3] t3].
+  destruct (r_data r); inversion H; subst; reflexivity.
+Qed.
+
+(* no read deadline of the protocol detection is armed when the relay starts - every path of the prologue *)
+Lemma no_stale_deadline_proof : forall p s0 now0,
+  k_dl s0 = None ->
+  match ps_conn (prologue p s0 now0) with
+  | Some _ => k_dl (ps_sock (prologue p s0 now0)) = None
+  | None => True
+  end.
+Proof.
+  intros p s0 now0 Hd. unfold prologue.
+  assert (Hrest : forall c1 s1 t1 rd, k_dl s1 = None ->
+    match ps_conn (if negb (p_try_sniff p) then mkPS (Some c1) s1 t1 rd false false false else
+      let '(c2, pre, ready, s2, t2) := prefetch_stage (p_sniff_ms p) c1 s1 t1 in
+      if negb ready then mkPS (Some c2) s2 t2 rd true false false else
+      if negb (is_likely_http_or_tls pre) then mkPS (Some c2) s2 t2 rd true false false else
+      let '(buf, derr, c3, s3, t3, spin) := sniff_stage (p_answers p) (t2 + p_sniff_ms p) c2 s2 t2 in
+      mkPS (Some (CSniffer buf derr c3)) s3 t3 rd true true spin) with
+    | Some _ => k_dl (ps_sock (if negb (p_try_sniff p) then mkPS (Some c1) s1 t1 rd false false false else
+      let '(c2, pre, ready, s2, t2) := prefetch_stage (p_sniff_ms p) c1 s1 t1 in
+      if negb ready then mkPS (Some c2) s2 t2 rd true false false else
+      if negb (is_likely_http_or_tls pre) then mkPS (Some c2) s2 t2 rd true false false else
+      let '(buf, derr, c3, s3, t3, spin) := sniff_stage (p_answers p) (t2 + p_sniff_ms p) c2 s2 t2 in
+      mkPS (Some (CSniffer buf derr c3)) s3 t3 rd true true spin)) = None
+    | None => True end).
+  { intros c1 s1 t1 rd Hd1.
+    destruct (negb (p_try_sniff p)); [exact Hd1|].
+    destruct (prefetch_stage (p_sniff_ms p) c1 s1 t1) as [[[[c2 pre] ready] s2] t2] eqn:Ep.
+    pose proof (prefetch_dl _ _ _ _ _ _ _ _ _ Ep) as Hd2.
+    destruct (negb ready); [exact Hd2|].
+    destruct (negb (is_likely_http_or_tls pre)); [exact Hd2|].
+    destruct (sniff_stage (p_answers p) (t2 + p_sniff_ms p) c2 s2 t2) as [[[[[buf derr] c3] s3] t3] spin] eqn:Es.
+    cbn. unfold sniff_stage in Es. eapply sniff_rounds_dl; eauto. }
+  destruct (p_port53 p).
+  - destruct (dns_stage (p_dns p) CSock s0 now0) as [[oc s1] t1] eqn:Ed.
+    destruct oc as [c1|]; [|exact I].
+    apply Hrest. eapply dns_stage_dl; eauto.
+  - apply Hrest. exact Hd.
+Qed.
+
+(* ------------------------------------------------------------------ examples (former refutation witnesses) *)
 Definition w_ssh : list N := [83;83;72;45;50;46;48;45;79;112;101;110;83;83;72;13;10].
 Definition w_client53 : side := mkSide [mkChunk 0 w_ssh; mkChunk 7000 [1;2;3]] (Some 8000).
 Definition w_server : side := mkSide [mkChunk 110 [65;66;67]] (Some 9010).
-Definition w_p53 : pcase := mkP true false 1000 DnsErr [].
+Definition w_p53 : pcase := mkP 53 1000 false 2 false DnsErr [].
 
-Lemma no_stale_deadline_refuted_proof :
-  exists p s0, k_dl s0 = None /\ k_dl (ps_sock (prologue p s0 0)) <> None.
-Proof. exists w_p53, (mk_sock w_client53). split; [reflexivity|]. vm_compute. discriminate. Qed.
-
-(* the consequence for the user: the later bytes of a healthy connection never arrive *)
-Lemma stale_deadline_cuts_proof :
+(* SSH banner to port 53, more data 7 s later: relayed in full (was cut at 5 s before 5fcc1e4) *)
+Lemma port53_fallback_example :
   let o := connection w_p53 c05_half_close_ms false true w_client53 w_server in
-  o_up o = w_ssh /\ o_err o = true /\ o_end o = 5000.
+  o_start o = 5000 /\ o_dl_at_start o = None /\ o_up o = w_ssh ++ [1;2;3] /\ o_up_shut o = true
+  /\ o_down o = [65;66;67] /\ o_down_shut o = true /\ o_err o = false.
 Proof. vm_compute. repeat split. Qed.
 
+(* a first frame that parses as a DNS response is relayed too (was dropped before 512bb6f) *)
 Definition w_dns_response : list N := [0;12; 18;52;128;0;0;0;0;0;0;0;0;0; 104;105].
-Definition w_client_resp : side := mkSide [mkChunk 0 w_dns_response] (Some 100).
-Lemma bytes_intact_refuted_proof :
-  exists p grace pend prio client server, ~ bytes_intact_stmt p grace pend prio client server.
-Proof.
-  exists (mkP true false 1000 DnsResponse []), 10000, false, true, w_client_resp, (mkSide [] (Some 50)).
-  unfold bytes_intact_stmt. intros [_ [_ [H _]]]. vm_compute in H. specialize (H eq_refl). discriminate.
-Qed.
+Lemma dns_response_example :
+  let o := connection (mkP 53 1000 false 2 false DnsResponse []) 10000 false true
+                      (mkSide [mkChunk 0 w_dns_response] (Some 100)) (mkSide [] (Some 50)) in
+  o_up o = w_dns_response /\ o_up_shut o = true /\ o_down_shut o = true /\ o_err o = false.
+Proof. vm_compute. repeat split. Qed.
 
-(* the sniff window expiring leaves no error behind in the reader (repaired in 9ef4b71) *)
+Definition w_tls_part : list N := [22;3;1;2;0;1;0].
+Definition w_client_tls : side := mkSide [mkChunk 0 w_tls_part; mkChunk 1500 [9;9;9]] (Some 3000).
+Definition w_psniff : pcase := mkP 443 1000 false 2 false DnsErr [(true, 4096)].
+
+(* partial TLS record, the rest later than the sniff window: relayed in full (was cut before 9ef4b71) *)
+Lemma sniff_timeout_harmless_example :
+  let o := connection w_psniff c05_half_close_ms false true w_client_tls w_server in
+  o_start o = 1000 /\ o_dl_at_start o = None /\ o_up o = w_tls_part ++ [9;9;9] /\ o_up_shut o = true /\ o_err o = false.
+Proof. vm_compute. repeat split. Qed.
+
 Lemma sniff_rounds_no_timeout : forall answers dl buf c s now buf' derr c' s' t spin,
   sniff_rounds answers dl buf c s now = (buf', derr, c', s', t, spin) ->
   derr <> Some ETimeout /\ derr <> Some EEof.
 Proof.
   induction answers as [|[more room] rest IH]; intros dl buf c s now buf' derr c' s' t spin H; cbn [sniff_rounds] in H.
   - inversion H; subst. split; discriminate.
-  - destruct (conn_read c room (set_dl s (Some dl)) now) as [[[r c2] s2] t2] eqn:E.
+  - destruct (conn_read c (N.max room sniff_min_read) (set_dl s (Some dl)) now) as [[[r c2] s2] t2] eqn:E.
     destruct (r_err r) as [e|].
     + destruct e; [destruct (nonempty (buf ++ r_data r) && more)| | |]; inversion H; subst; split; discriminate.
     + destruct more.
@@ -593,48 +665,25 @@ Proof.
       * inversion H; subst. split; discriminate.
 Qed.
 
-Definition w_tls_part : list N := [22;3;1;2;0;1;0].
-Definition w_client_tls : side := mkSide [mkChunk 0 w_tls_part; mkChunk 1500 [9;9;9]] (Some 3000).
-Definition w_psniff : pcase := mkP false true 1000 DnsErr [(true, 4096)].
-
-(* partial TLS record, the rest later than the sniff window: relayed in full, both ends of stream honoured *)
-Lemma sniff_timeout_harmless_example :
-  let o := connection w_psniff c05_half_close_ms false true w_client_tls w_server in
-  o_start o = 1000 /\ o_dl_at_start o = None /\ o_up o = w_tls_part ++ [9;9;9] /\ o_up_shut o = true /\ o_err o = false.
+(* server half-close through the sniffer wrapper reaches the client (was lost before b8da220) *)
+Definition w_http : list N := [71;69;84;32;47;32;72;84;84;80;47;49;46;48;13;10;13;10].
+Lemma wrapped_half_close_example :
+  let o := connection (mkP 443 1000 false 2 false DnsErr [(false, 4096)]) c05_half_close_ms false true
+                      (mkSide [mkChunk 0 w_http] None) (mkSide [mkChunk 110 [65;66;67]] (Some 210)) in
+  o_down o = [65;66;67] /\ o_down_shut o = true /\ o_cw_down o = (1, 210, 3) /\ o_end o = 10210 /\ o_err o = true.
 Proof. vm_compute. repeat split. Qed.
 
-(* half-close towards the client through a wrapper: the server's end of stream is not passed on *)
-Definition w_http : list N := [71;69;84;32;47;32;72;84;84;80;47;49;46;48;13;10;13;10].
-Definition w_client_http : side := mkSide [mkChunk 0 w_http] None.
-Definition w_server_eof : side := mkSide [mkChunk 110 [65;66;67]] (Some 210).
-Definition w_psniff_ok : pcase := mkP false true 1000 DnsErr [(false, 4096)].
-
-Definition half_close_stmt (p : pcase) (grace : N) (pend prio : bool) (client server : side) : Prop :=
-  let o := connection p grace pend prio client server in
-  let x := expect grace (o_start o) client server in
-  o_handled_dns o = false ->
-  o_up_shut o = x_up_shut x /\ o_down_shut o = x_down_shut x.
-
-Lemma half_close_refuted_proof :
-  exists p grace pend prio client server, ~ half_close_stmt p grace pend prio client server.
-Proof.
-  exists w_psniff_ok, c05_half_close_ms, false, true, w_client_http, w_server_eof.
-  unfold half_close_stmt. vm_compute. intros H. destruct (H eq_refl) as [_ H2]. discriminate.
-Qed.
-
-(* ... while on a plain socket both ends of stream are passed on and everything arrives *)
 Lemma half_close_plain_example :
   let client := mkSide [mkChunk 0 [1;2;3]; mkChunk 300 [4;5]] (Some 400) in
   let server := mkSide [mkChunk 110 [7;8]; mkChunk 9010 [9]] (Some 9510) in
-  let o := connection (mkP false false 1000 DnsErr []) c05_half_close_ms false true client server in
+  let o := connection (mkP 22 1000 false 2 false DnsErr []) c05_half_close_ms false true client server in
   o_up o = [1;2;3;4;5] /\ o_down o = [7;8;9] /\ o_up_shut o = true /\ o_down_shut o = true
   /\ o_cw_up o = (1, 400, 5) /\ o_cw_down o = (1, 9510, 3) /\ o_err o = false.
 Proof. vm_compute. repeat split. Qed.
 
-(* grace: server data later than client EOF + grace is not relayed, the relay ends at EOF + grace *)
 Lemma grace_example :
   let client := mkSide [mkChunk 0 [1]] (Some 400) in
   let server := mkSide [mkChunk 10390 [7]; mkChunk 10410 [8]] None in
-  let o := connection (mkP false false 1000 DnsErr []) c05_half_close_ms false true client server in
+  let o := connection (mkP 22 1000 false 2 false DnsErr []) c05_half_close_ms false true client server in
   o_down o = [7] /\ o_end o = 10400 /\ o_err o = true /\ o_up_shut o = true.
 Proof. vm_compute. repeat split. Qed.
